@@ -133,6 +133,11 @@ func init() {
 		Decides:    "one clause only, the comparison operators of relational and literal patterns: the opcode the compiler hands to the pattern helpers under `case token.T` (== != =~ !~ === !== < <= > >=) belongs to the family the compiler's own operator table assigns to T in expressions, so `case < 5` tests what `x < 5` tests.",
 		NotCovered: "first-match order, binding of nested parts, exhaustiveness, and every other pattern form: relations between compiled code and a reference matcher over all values.",
 	}
+	props["C32"] = &PropSpec{
+		Rules:      []string{"lineinfo/paired", "layout/prepend-bytes", "cover/offsets"},
+		Decides:    "the accounting that makes a frame's line number computable: the line of an instruction is found by summing the per-line instruction counts, so every function that lengthens or shortens an instruction stream changes those counts by the same symbolic amount (7 functions, the only ones that assign to Instructions), a prepended prologue shifts the first entry by exactly its byte length, and the functions that move instructions also move every stored offset (catch entries, recorded call sites) that error handling and the stack trace consult.",
+		NotCovered: "that the frames listed are the active call chain and that the line recorded for each emitted instruction is the right source line: relations between a run and the source program.",
+	}
 	props["C25"] = &PropSpec{
 		Rules:      []string{"effect/mayfatal-unlock", "path/recoverguard", "path/ctx-blocking"},
 		Decides:    "the `errors rather than crashes` half of the property: (1) no unlock of a sync mutex driven by the program can reach the Go runtime's unrecoverable fatal error (every unpaired Unlock/RUnlock is dominated by a test of state the wrapper tracks); (2) every send, close, reflect.Select and wait-group decrement on an object the program holds is either under a deferred recover() or guarded by a tracked counter; (3) the context-aware channel operations are arms of a select that also watches the context.",
